@@ -248,6 +248,27 @@ fn check_case(c: &Case, obs: &mut Obs) -> Verdict {
             }
             ntok = ntok.max(sc.len());
         }
+        // a String buffer that was tokenized with OTHER content of the same length and then refilled in
+        // place (same address, same length) tokenizes like a fresh string
+        if let Ok(s) = std::str::from_utf8(b) {
+            if s.len() >= 2 {
+                let mut other: Vec<&str> = s.split_inclusive(|ch| ch == '\n' || ch == ' ').collect();
+                other.reverse();
+                let other = other.concat();
+                if other.len() == s.len() {
+                    let mut buf = String::with_capacity(s.len());
+                    buf.push_str(&other);
+                    let _ = (buf.tokenize_lines().len(), buf.tokenize_words().len(), buf.tokenize_chars().len(), buf.tokenize_lines_and_newlines().len());
+                    buf.clear();
+                    buf.push_str(s);
+                    let again: [Vec<&str>; 4] = [buf.tokenize_lines(), buf.tokenize_words(), buf.tokenize_chars(), buf.tokenize_lines_and_newlines()];
+                    let fresh: [Vec<&str>; 4] = [s.tokenize_lines(), s.tokenize_words(), s.tokenize_chars(), s.tokenize_lines_and_newlines()];
+                    if again != fresh {
+                        return Err(format!("a String buffer refilled in place (tokenized before with {:?}) tokenizes into {:?}, a fresh string into {:?}", other, again, fresh));
+                    }
+                }
+            }
+        }
         for w in b.windows(2) {
             if w == b"\r\n" {
                 cr_lf = true;
